@@ -4,6 +4,8 @@
 mod core_ops;
 mod dval;
 mod gen;
+mod guard;
+mod ops_c04;
 mod ops_acc;
 mod ops_codec;
 mod ops_frame;
@@ -26,6 +28,9 @@ impl Ctx {
     }
 }
 
+#[global_allocator]
+static GLOBAL: guard::Counting = guard::Counting;
+
 fn eval_line(ctx: &mut Ctx, line: &str) -> String {
     let xs = match sexp::parse_line(line) {
         Some(x) if !x.is_empty() => x,
@@ -37,6 +42,9 @@ fn eval_line(ctx: &mut Ctx, line: &str) -> String {
     };
     let args = &xs[1..];
     if let Some(a) = ops_codec::eval(ctx, &op, args) {
+        return a;
+    }
+    if let Some(a) = ops_c04::eval(ctx, &op, args) {
         return a;
     }
     if let Some(a) = ops_acc::eval(ctx, &op, args) {
@@ -53,6 +61,7 @@ fn eval_line(ctx: &mut Ctx, line: &str) -> String {
 
 fn main() {
     std::panic::set_hook(Box::new(|_| {}));
+    guard::install_handlers();
     let args: Vec<String> = std::env::args().collect();
     let mode = args.get(1).map(|s| s.as_str()).unwrap_or("");
     match mode {
@@ -69,6 +78,7 @@ fn main() {
                 "C16" => ops_schema::gen_c16(&mut r, thorough, &mut out),
                 "C15" => ops_schema::gen_c15(&mut r, thorough, &mut out),
                 "C19" => ops_schema::gen_c19(&mut r, thorough, &mut out),
+                "C04" => ops_c04::gen_c04(&mut r, thorough, &mut out),
                 "C08" => ops_acc::gen_acc(&mut r, thorough, false, &mut out),
                 "C09" => ops_acc::gen_acc(&mut r, thorough, true, &mut out),
                 "C05" => ops_frame::gen_c05(&mut r, thorough, &mut out),
@@ -96,6 +106,7 @@ fn main() {
             for line in stdin.lock().lines() {
                 let line = line.unwrap();
                 ctx.line_no += 1;
+                guard::CUR_LINE.store(ctx.line_no, std::sync::atomic::Ordering::Relaxed);
                 ctx.line = line.clone();
                 let a = eval_line(&mut ctx, &line);
                 if a.starts_with("FAIL") {
